@@ -45,7 +45,7 @@ func Load(repo string, overlay map[string]string, pkgs []string, extraExec []str
 			packages.NeedTypes | packages.NeedTypesSizes | packages.NeedSyntax | packages.NeedTypesInfo | packages.NeedDeps,
 		Dir:        repo,
 		Fset:       fset,
-		BuildFlags: []string{"-tags=verif"},
+		BuildFlags: []string{"-tags=verif,fast_test"},
 		Overlay:    ov,
 		Env:        append(os.Environ(), "GOFLAGS=-mod=mod", "GOPROXY=off", "GOSUMDB=off", "GOTOOLCHAIN=local"),
 	}
